@@ -62,17 +62,50 @@ def mode_off_variants(ctx):
     return out
 
 
+_F = [None]
+
+
+def _variant_of_const(e):
+    """(enum path, variant) of a constant / promoted value that is a field-less enum variant, else None"""
+    F = _F[0]
+    x = e
+    if x.kind == 'const' and x.const.get('s') and F is not None:
+        for bs in (F.get(norm(x.const['s'])), F.search('^' + __import__('re').escape(norm(x.const['s'])) + '$')):
+            for b_ in bs or []:
+                r = ExprBuilder(b_).place(0, ())
+                r = r.strip() if r.kind in ('call', 'cast') else r
+                if r.kind == 'agg' and not r.args and '::' in r.name:
+                    return (norm(r.name.rsplit('::', 1)[0]), r.name.rsplit('::', 1)[1])
+    if x.kind == 'agg' and not x.args and '::' in x.name:
+        return (norm(x.name.rsplit('::', 1)[0]), x.name.rsplit('::', 1)[1])
+    return None
+
+
 def enum_mode_off(conds, off_variants):
-    """a path condition `mode is V` where V is the variant that stands for only_baked == false"""
+    """a path condition `mode is V` where V is the variant that stands for only_baked == false (a `match`, or the
+    derived `mode == Enum::V` / `mode != Enum::W` of a two-valued enum)"""
     for k in conds:
         if k.kind == 'discr' and k.variants and len(k.variants) == 1:
             ty = norm(getattr(k, 'enum_ty', '') or '')
             if (ty, list(k.variants)[0]) in off_variants:
                 return True
+        if k.kind == 'bool' and k.truth is not None and k.expr.kind == 'call' and len(k.expr.args) == 2 and \
+                k.expr.name.rsplit('::', 1)[-1] in ('eq', 'ne'):
+            for a in k.expr.args:
+                v = _variant_of_const(a)
+                if v is None:
+                    continue
+                holds_eq = k.truth if k.expr.name.endswith('eq') else (not k.truth)
+                if holds_eq and v in off_variants:
+                    return True
+                if not holds_eq and len({o for o in off_variants if o[0] == v[0]}) >= 1 and v not in off_variants:
+                    # `mode != OnlyBaked` on a two-valued enum is `mode == All`
+                    return True
     return False
 
 
 def r1(ctx):
+    _F[0] = ctx.F
     R = 'R10.1'
     ctx.rule(R, 'Track::distances only for different ids, and only for Ready tracks when only_baked; only '
                 'IncompatibleAttributes is swallowed')
